@@ -12,8 +12,9 @@ RULE = ("RIB populations built from nested and sibling prefix families (random w
         "configured limits); a case is non-trivial when at least one answer is a 200 with a non-empty section; distinct = distinct case text")
 TRUSTED_BASE = [
     "Coq 8.16.1 kernel (coqc; coqchk in thorough); no native_compute",
-    "extraction with ExtrOcamlBasic only; OCaml driver oracle/{conv,eng_ribquery,oracle}.ml",
-    "Rust harness /verif/harness engine `ribquery`: real RibUnitRunner::process_update fed by real bgp_tcp_in process_update on hand-made UPDATE bytes, "
+    "extraction with ExtrOcamlBasic only; OCaml driver oracle/{conv,eng_ribquery,eng_ribqueryx,oracle}.ml",
+    "Rust harness /verif/harness engines `ribquery` / `ribqueryx` (one implementation run; the oracle of ribqueryx expects the model's token where a recorded finding "
+    "class explains a departure from the property, so any other disagreement is examined first): real RibUnitRunner::process_update fed by real bgp_tcp_in process_update on hand-made UPDATE bytes, "
     "real PrefixesApi::process_request built by PrefixesApi::new (facade rotonda::verif::ribquery, feature verif-hooks), hyper Request/Response in process",
     "modelled, not verified: src/units/rib_unit/http/{request,response,types}.rs, Rib::match_prefix, QueryLimits, src/http.rs query parameter helpers; "
     "rotonda-store 0.4.1 is modelled as a finite map + withdrawn-id set, its exact/less-specific answers as set comprehensions, its more-specifics "
@@ -303,6 +304,9 @@ def corpus():
         # known finding C11-2: rotonda-store's more-specifics iterator misses and mis-includes
         "P 0 65001;A 0 0 0a010000/16 1 65001 -;Q 4 0a000000/8 include=moreSpecifics",
         "P 0 65001;A 0 0 0a400100/24 1 65001 -;Q 4 0a000000/10 include=moreSpecifics",
+        "L 0 0;P 0 65001;A 0 0 09000100/24 1 65001 -;Q 4 0a000000/8 include=moreSpecifics",
+        # regression of the two repaired defects: community filter, non-ASCII AS number
+        "P 0 65001;A 0 0 0a000000/8 1 65001 4259840100;Q 4 0a000000/8 select[community]=65000:100;Q 4 0a000000/8 discard[community]=65000:100;Q 4 0a000000/8 select[peer_as]=%E2%82%AC;Q 4 0a000000/8 discard[as_path]=65001,%E2%82%AC",
     ]
 
 
